@@ -209,7 +209,7 @@ type c03Span struct {
 
 func TestVerifC03Consistency(t *testing.T) {
 	rep := verifkit.New("C03", "consistency",
-		"case = one round on a running server: one or two POST /control/access/set calls with fresh lists racing with each other and/or with Server.Reconfigure(nil), started together after seeded delays and joined; afterwards the reported lists and the enforcement on probes derived from all candidate lists are compared; every round is non-trivial (at least two racing operations); distinct by (round kind, lists, delays)")
+		"case = one round on a running server: one or two POST /control/access/set calls with fresh lists racing with each other and/or with Server.Reconfigure(nil), started together after seeded delays and joined; afterwards the reported lists and the enforcement on probes derived from all candidate lists are compared; every round is non-trivial (at least two racing operations); distinct by (round kind, lists, delays). Second phase, case = one crafted request (address, ClientID, protocol, name) pushed through IsBlockedClient and HandleBefore while access/set flips the server between two configurations A and B; it is decided only when A and B agree on it; distinct by (A, B, probe)")
 	defer func() {
 		if err := rep.Write(); err != nil {
 			t.Fatal(err)
@@ -249,6 +249,9 @@ func TestVerifC03Consistency(t *testing.T) {
 	if n := rep.ClassCount("rounds_checked"); n < workers*rounds*3/4 {
 		rep.Inconcl(fmt.Sprintf("only %d of %d rounds could be checked", n, workers*rounds))
 	}
+
+	// Second phase: requests overlapping a replacement of the settings.
+	c03FlipPhase(rep, nextID)
 }
 
 func c03ConsistencyWorker(rep *verifkit.Report, rng *rand.Rand, wk, rounds int, nextID func() uint64) {
